@@ -7,6 +7,7 @@ import (
 	"os"
 	"path/filepath"
 	"regexp"
+	"runtime"
 	"sort"
 	"strings"
 	"testing"
@@ -113,6 +114,8 @@ func execGuard(t *testing.T, c *Case) (v *Verdict) {
 	return v
 }
 
+var goRoot = runtime.GOROOT() + "/src/"
+
 var raceFrameRe = regexp.MustCompile(`^\s+(/\S+\.go):(\d+)`)
 
 // raceClass reads the ThreadSanitizer log of this process and returns a stable
@@ -139,16 +142,27 @@ func raceClass() (string, string) {
 	for i, ln := range lines {
 		l := strings.TrimSpace(ln)
 		if strings.HasPrefix(l, "Write at") || strings.HasPrefix(l, "Read at") || strings.HasPrefix(l, "Previous write at") || strings.HasPrefix(l, "Previous read at") {
-			site := ""
+			site, fallback := "", ""
 			for k := i + 1; k < len(lines) && strings.TrimSpace(lines[k]) != ""; k++ {
 				if m := raceFrameRe.FindStringSubmatch(lines[k]); m != nil {
 					f := m[1]
 					if strings.Contains(f, "/verifsim/") || strings.Contains(f, "/verif/sim/") {
 						continue
 					}
-					site = filepath.Base(filepath.Dir(f)) + "/" + filepath.Base(f) + ":" + m[2]
+					s := filepath.Base(filepath.Dir(f)) + "/" + filepath.Base(f) + ":" + m[2]
+					if fallback == "" {
+						fallback = s
+					}
+					// the signature names the innermost frame inside the library, not the runtime or a dependency
+					if strings.Contains(f, goRoot) || strings.Contains(f, "/pkg/mod/") {
+						continue
+					}
+					site = s
 					break
 				}
+			}
+			if site == "" {
+				site = fallback
 			}
 			if site == "" {
 				site = "harness-frame"
